@@ -31,6 +31,33 @@ CHECKS = {
  "C16": ("bounded-exhaustive enumeration of promise-actor compositions x exhaustive schedule parameters (every budget, every drain mode, every cut set) with hand-polled futures on the real engine; all schedules must agree and equal the committed V8-derived order",
          "Every composition of <=3 (thorough <=4) actors from a 31-actor alphabet is run under every listed budget / drain mode / split; all schedules of a program must give one trace, equal to the golden order, every callback id exactly once.",
          "Trusts V8 as the spec order for <=3 actors and the FIFO merge model (re-checked against every golden entry each run) beyond.", "DESIGN.md §3 C16"),
+ "C02": ("bounded-exhaustive enumeration of byte strings, token strings, nesting depths, iterator-x-mutation programs and reuse pairs, each parsed/evaluated on the real engine in child processes; outcome-class oracle",
+         "All byte strings <=2, all strings over a 27-element byte alphabet and a 63-token alphabet up to the tier's length, 27 nestable constructs x depths 1..64, every (re-entering builtin, mutating callback) pair and every ordered pair of a reuse pool on one context are executed; every outcome must be a value, a JavaScript exception or a RuntimeLimit (never a panic, abort, EnginePanic or hang).",
+         "Debug assertions and overflow checks are on in the harness build; a crash of a child process is an observation (Abort).", "DESIGN.md §3 C02"),
+ "C06": ("stateless enumeration of all operation histories (object/prototype mutations interleaved with access-site invocations) up to a depth, each executed on the real engine with inline caches on and off (cfg boa_verif switch); trace equality",
+         "Every history over the named alphabets at the stated depths whose last operation is an access-site invocation runs with caches on and with caches off; values read, accessor calls, errors and a final structural dump must be equal.",
+         "Trusts the caches-off switch (InlineCache::get returns None / set is a no-op) to give the uncached semantics.", "DESIGN.md §3 C06"),
+ "C07": ("stateless enumeration of all sequences of host entries (eval, call, construct, generator resume, run_jobs, modules, async evaluation; 90 entry kinds) up to a depth on one context; VM depth invariant after every entry plus differential probe",
+         "After EACH host entry of every enumerated sequence the frame depth, value-stack length, pending exception, host-call depth, environment depth and binding-stack length must equal their values before the entry, and a fixed probe script must afterwards behave as on a context that only ran the successful entries.",
+         "Uses the vm_depths hook (cfg boa_verif).", "DESIGN.md §3 C07"),
+ "C08": ("full finite product of limit triples x loop forms x activation kinds x re-entry routes x try/catch/finally wrappers executed on the real engine; limit-specific predicates",
+         "Every runaway variant must end in the RuntimeLimit of the right kind reported to the host entry or to run_jobs, with no catch/finally/after line of the stopped activation chain and bounded work (tick counter <= L+2, frame depth <= R); every under-limit variant must give the trace it gives without limits or stop cleanly on a tighter limit.",
+         "The loop limit is the documented per-frame cumulative counter (docs/vm.md); an exact model of it is checked on 14.8k accounting cases.", "DESIGN.md §3 C08"),
+ "C12": ("exhaustive round trips of all i32 (thorough) / boundary i32 and a structured 2^20+ set of f64 bit patterns through JsValue in two builds (NaN-boxed, enum) with digest comparison; program traces compared across the builds",
+         "Every value of the stated sets is wrapped in JsValue and must keep its type (exactly one predicate), payload bits (NaNs stay numbers), equality and reader results; the two value-representation builds must produce identical observation digests and identical traces for bit-pattern-manufacturing scripts and family programs.",
+         "The enum representation is the reference for program traces.", "DESIGN.md §3 C12"),
+ "C14": ("explicit-state search over array operation histories from 51 seeds, merged on (logical dump, storage kind via the storage hook); storage-independence, Proxy / array-like twins and committed V8-derived golden on every transition",
+         "All histories up to the stated depth are executed; any two states with the same logical dump must give the same observation for every next operation whatever their storage form, the same operation through a forwarding Proxy and on an array-like twin must agree, and every (state, operation) equals the V8-derived golden (+ 2 documented overrides).",
+         "Main search runs with inline caches off (a separate warm-cache family covers caches on).", "DESIGN.md §3 C14"),
+ "C17": ("bounded-exhaustive enumeration of module graphs (all graphs on <=3 modules with ordered import lists, 4-module edge sets) x behaviours x entry/re-evaluation histories x every loader completion order, executed on the real engine with a controllable loader; compared with a transliteration of the spec algorithm",
+         "Every configuration's print trace, promise states at quiescence, namespaces and loader request log must equal the reference model's prediction and must not depend on the order in which pending loads complete.",
+         "Reference model = ES2024 16.2.1.5 transliteration, cross-validated against node's vm.SourceTextModule on 526k configurations.", "DESIGN.md §3 C17"),
+ "C18": ("bounded-exhaustive enumeration of JSON texts (all texts <= L characters over 33 characters, all token sequences <= K tokens), nesting depths, small values x replacers x indents, all code units, executed on the real engine and compared with an own ECMA-404 recogniser/evaluator and a transliterated JSON.stringify",
+         "Accept/reject, parsed value (canonical dump), reviver walk, stringify output and parse(stringify(v)) are compared with the reference for every enumerated case.",
+         "Reference cross-validated against Python's json on every run and against V8 on the whole thorough space at authoring time; the reviver's `context.source` argument (proposal) is not part of the verdict.", "DESIGN.md §3 C18"),
+ "C19": ("bounded-exhaustive enumeration of token strings (<= K of 63 tokens), family programs and their single token-level mutants through parse -> print -> parse -> print on the real parser, plus evaluation of text and printed form",
+         "For every text the parser must return an AST or an error positioned inside the text without interning foreign strings; for every accepted text the printed form must re-parse, print identically (twice), not grow the interner and evaluate to the same trace as the original.",
+         "AST equality is judged through the printed form.", "DESIGN.md §3 C19"),
  "C20": ("explicit enumeration of (program, prior-history) pairs: each history is replayed in one process on the real engine; byte-identical traces required; realm sabotage and cross-realm intrinsic probes inside one context",
          "A pool of programs is evaluated after each of nine prior histories on the same thread (other programs, the program itself, a script that sabotages every reachable intrinsic, 100 dropped contexts, GC-heavy and interning-heavy programs), in a second process, and in realms of one context whose other realm was sabotaged; every trace must equal the fresh-process trace; cross-realm objects must report their own realm's intrinsics.",
          "Premise of all self-differential checks; two OS threads in one process are not exercised.", "DESIGN.md §3 C20"),
